@@ -604,9 +604,6 @@ pub fn run(ctx: &Ctx) -> Report {
         r.exhaustive = true;
         for s in chunk.iter() {
             let clauses: Vec<Clause> = s.iter().map(|&i| types[i].clone()).collect();
-            if clauses.iter().any(|c| c.is_empty()) {
-                continue;
-            }
             r.states += 1;
             check_cnf_path(&clauses, &mut r);
             if r.n_violations > 8 {
